@@ -171,6 +171,7 @@ func (e *Enc) havocHeapGuarded(st *State, guard, why string) {
 	}()
 	for _, k := range e.keyOrder {
 		if e.isHeapKey(k) {
+			e.recordWrite(k, nil)
 			old := e.get(st, k, e.keySort[k])
 			n := e.fresh(k)
 			e.declare(n, e.keySort[k])
@@ -352,6 +353,7 @@ func (e *Enc) havocDesignator(d string, ctx *evalCtx, st *State, guard, why stri
 	}
 	for _, dk := range keys {
 		e.regKey(dk.key, dk.sort)
+		e.recordWrite(dk.key, nil)
 		old := e.get(st, dk.key, dk.sort)
 		if dk.index == "" {
 			n := e.fresh(dk.key)
@@ -412,6 +414,7 @@ func (e *Enc) encBuiltin(v ssa.Value, c *ssa.CallCommon, ci *calleeInfo, st *Sta
 		m := e.term(c.Args[0])
 		dk, ds, _, _ := e.mapKeys(mt)
 		d := e.get(st, dk, ds)
+		e.recordWrite(dk, &lvalue{base: m, baseVal: c.Args[0]})
 		e.guardedSet(st, dk, guard, fmt.Sprintf("(store %s %s (store (select %s %s) %s false))", d, m, d, m, e.term(c.Args[1])))
 	case "recover":
 		if v != nil {
@@ -486,6 +489,7 @@ func (e *Enc) encAppend(v ssa.Value, c *ssa.CallCommon, st *State) {
 	default:
 		addLen = e.freshConst("applen", idx)
 	}
+	e.recordFreshWrite(k)
 	e.set(st, k, ks, fmt.Sprintf("(store %s %s %s)", all, r, arr))
 	nl := fmt.Sprintf("(idx.add (sl.len %s) %s)", s, addLen)
 	capc := e.freshConst("appcap", idx)
@@ -521,6 +525,7 @@ func (e *Enc) encCopy(v ssa.Value, c *ssa.CallCommon, st *State, guard string) {
 	oldArr := fmt.Sprintf("(select %s (sl.arr %s))", all, dst)
 	e.assume(fmt.Sprintf("(forall ((j %s)) (! (= (select %s j) (ite (and (idx.le (sl.off %s) j) (idx.lt j (idx.add (sl.off %s) %s))) %s (select %s j))) :pattern ((select %s j))))",
 		idx, arr, dst, dst, n, srcAt(fmt.Sprintf("(idx.sub j (sl.off %s))", dst)), oldArr, arr))
+	e.recordWrite(k, nil)
 	e.guardedSet(st, k, guard, fmt.Sprintf("(store %s (sl.arr %s) %s)", all, dst, arr))
 	if v != nil {
 		e.setVal(v, n)
@@ -778,6 +783,8 @@ func (e *Enc) valueEscapes(v ssa.Value, seen map[ssa.Value]bool) bool {
 			}
 		case *ssa.MakeClosure:
 			// captured by a closure of this function: treated as local (closures here do not leak captures)
+		case *ssa.Return:
+			// handing the object to the caller at the very end is not an escape during the function
 		case *ssa.Index, *ssa.Lookup, *ssa.Range:
 		case *ssa.MapUpdate:
 			if r.Map != v {
